@@ -24,6 +24,13 @@ const c12Kind = "v.com/cls"
 
 func c12StateDoc(tag string, devs ...string) []byte {
 	s := &specs.Spec{Version: "0.3.0", Kind: c12Kind, ContainerEdits: specs.ContainerEdits{Env: []string{"S=" + tag}}}
+	if tag == "B" {
+		// the two states differ in length by a few hundred bytes: a publication that is not atomic shows as one
+		// state followed by the tail of the other, not only as an empty file
+		for i := 0; i < 24; i++ {
+			s.ContainerEdits.Env = append(s.ContainerEdits.Env, fmt.Sprintf("M_pad%02d=%s", i, tag))
+		}
+	}
 	for _, d := range devs {
 		s.Devices = append(s.Devices, specs.Device{Name: d, ContainerEdits: specs.ContainerEdits{Env: []string{"M_" + d + "=" + tag}}})
 	}
@@ -43,7 +50,8 @@ type c12Program struct {
 	Threads    [][]string `json:"threads"`
 	Yield      int        `json:"yieldEvery"`
 	Switches   int        `json:"switches"`
-	ViaWrite   bool       `json:"switchViaWriteSpec"` // the switcher publishes the two states with Cache.WriteSpec instead of write+rename
+	ViaWrite   bool       `json:"switchViaWriteSpec"`  // the switcher publishes the two states with Cache.WriteSpec instead of write+rename
+	Switchers  int        `json:"switchers,omitempty"` // goroutines publishing the two states under the one name at the same time (0 = 1)
 }
 
 var c12Ops = []string{"ListDevices", "GetDevice", "ListVendors", "ListClasses", "GetVendorSpecs", "GetSpecErrors", "GetErrors", "GetSpecDirectories",
@@ -61,6 +69,7 @@ func genC12(t *rapid.T) c12Program {
 	p := c12Program{Auto: rapid.Bool().Draw(t, "auto"), GoMaxProcs: rapid.SampledFrom([]int{2, 4, 16}).Draw(t, "gomaxprocs"),
 		Yield: rapid.SampledFrom([]int{0, 1, 3, 10}).Draw(t, "yieldEvery"), Switches: rapid.IntRange(20, 120).Draw(t, "switches"),
 		ViaWrite: rapid.Bool().Draw(t, "switchViaWriteSpec")}
+	p.Switchers = rapid.SampledFrom([]int{1, 1, 2, 3}).Draw(t, "switchers")
 	n := rapid.IntRange(3, 8).Draw(t, "threads")
 	for i := 0; i < n; i++ {
 		// each thread has a small repertoire repeated many times: pairs of operations overlap often
@@ -105,33 +114,41 @@ func (env *c12Env) run(p c12Program) (msg string, mutators int) {
 	lastProgress.Store(time.Now().UnixNano())
 	var wg, bg sync.WaitGroup
 
-	// the switcher: atomically replaces the Spec file, alternating the two states
-	bg.Add(1)
-	go func() {
-		defer bg.Done()
-		var specA, specB specs.Spec
-		_ = json.Unmarshal(docA, &specA)
-		_ = json.Unmarshal(docB, &specB)
-		writer, _ := cdi.NewCache(cdi.WithSpecDirs(dir), cdi.WithAutoRefresh(false))
-		for i := 0; i < p.Switches && !stop.Load(); i++ {
-			doc, sp := docB, &specB
-			if i%2 == 1 {
-				doc, sp = docA, &specA
-			}
-			if p.ViaWrite {
-				// publication by the library itself must be just as atomic for concurrent queries
-				if err := writer.WriteSpec(sp, "state.json"); err != nil {
-					failf("the switcher's WriteSpec failed: %v", err)
+	// the switchers: each atomically replaces the Spec file, alternating the two states (several of them publish
+	// under the one name at the same time: every single publication is atomic, so the directory still only ever
+	// switches between the two states)
+	nSwitchers := p.Switchers
+	if nSwitchers < 1 {
+		nSwitchers = 1
+	}
+	for sw := 0; sw < nSwitchers; sw++ {
+		bg.Add(1)
+		go func(sw int) {
+			defer bg.Done()
+			var specA, specB specs.Spec
+			_ = json.Unmarshal(docA, &specA)
+			_ = json.Unmarshal(docB, &specB)
+			writer, _ := cdi.NewCache(cdi.WithSpecDirs(dir), cdi.WithAutoRefresh(false))
+			for i := 0; i < p.Switches && !stop.Load(); i++ {
+				doc, sp := docB, &specB
+				if (i+sw)%2 == 1 {
+					doc, sp = docA, &specA
 				}
+				if p.ViaWrite {
+					// publication by the library itself must be just as atomic for concurrent queries
+					if err := writer.WriteSpec(sp, "state.json"); err != nil && nSwitchers == 1 {
+						failf("the switcher's WriteSpec failed: %v", err)
+					}
+					time.Sleep(time.Duration(200+i%7*100) * time.Microsecond)
+					continue
+				}
+				tmp := filepath.Join(stage, fmt.Sprintf("next%d.json", sw))
+				_ = os.WriteFile(tmp, doc, 0o644)
+				_ = os.Rename(tmp, filepath.Join(dir, "state.json"))
 				time.Sleep(time.Duration(200+i%7*100) * time.Microsecond)
-				continue
 			}
-			tmp := filepath.Join(stage, "next.json")
-			_ = os.WriteFile(tmp, doc, 0o644)
-			_ = os.Rename(tmp, filepath.Join(dir, "state.json"))
-			time.Sleep(time.Duration(200+i%7*100) * time.Microsecond)
-		}
-	}()
+		}(sw)
+	}
 	if !p.Auto {
 		bg.Add(1)
 		go func() { // manual caches get a refresher
@@ -353,6 +370,12 @@ func TestC12Rapid(t *testing.T) {
 		labels = append(labels, fmt.Sprintf("gomaxprocs-%d", p.GoMaxProcs))
 		if p.ViaWrite {
 			labels = append(labels, "switch-via-WriteSpec")
+		}
+		if p.Switchers > 1 {
+			labels = append(labels, "concurrent-publishers-of-one-name")
+			if p.ViaWrite {
+				labels = append(labels, "concurrent-WriteSpec-of-one-name")
+			}
 		}
 		rec.Case(mutators > 0, canonJSON(p), func() any { return p }, labels...)
 	})
